@@ -126,25 +126,32 @@ theorem RefsAll_activate {P : Int → Nat → Prop} {now : Int} {up act up' act'
         obtain ⟨i1, i2⟩ := ih h2 ha hx
         exact ⟨RefsAll_cons.mpr ⟨h1, i1⟩, i2⟩
 
-theorem RefsAll_finishLoop {P : Int → Nat → Prop} {snap : List Gauge} {act fin act' fin' : Refs}
-    (ha : RefsAll P act) (hf : RefsAll P fin) (hs : ∀ g ∈ snap, P g.start g.id)
-    (h : finishLoop snap act fin = some (act', fin')) : RefsAll P act' ∧ RefsAll P fin' := by
+theorem RefsAll_finishLoop {P : Int → Nat → Prop} {store snap : List Gauge} {act fin act' fin' : Refs}
+    (ha : RefsAll P act) (hf : RefsAll P fin) (hs : ∀ u ∈ store, P u.start u.id)
+    (h : finishLoop store snap act fin = some (act', fin')) : RefsAll P act' ∧ RefsAll P fin' := by
   induction snap generalizing act fin with
   | nil => simp only [finishLoop] at h; cases h; exact ⟨ha, hf⟩
   | cons g gs ih =>
-    have hgs : ∀ x ∈ gs, P x.start x.id := fun x hx => hs x (List.mem_cons_of_mem _ hx)
     simp only [finishLoop] at h
     split at h
-    · cases hd : refsDel act g.start g.id with
-      | none => rw [hd] at h; cases h
-      | some act1 =>
-        rw [hd] at h
-        cases hx : refsAdd fin g.start g.id with
-        | none => rw [hx] at h; cases h
-        | some fin1 =>
-          rw [hx] at h
-          exact ih (RefsAll_refsDel ha hd) (RefsAll_refsAdd hf (hs g (List.mem_cons_self ..)) hx) hgs h
-    · exact ih ha hf hgs h
+    · cases hu : getGauge store g.id with
+      | none => rw [hu] at h; cases h
+      | some u =>
+        rw [hu] at h
+        simp only at h
+        have hum : u ∈ store := by unfold getGauge at hu; exact List.mem_of_find?_eq_some hu
+        split at h
+        · exact ih ha hf h
+        · cases hd : refsDel act u.start u.id with
+          | none => rw [hd] at h; cases h
+          | some act1 =>
+            rw [hd] at h
+            cases hx : refsAdd fin u.start u.id with
+            | none => rw [hx] at h; cases h
+            | some fin1 =>
+              rw [hx] at h
+              exact ih (RefsAll_refsDel ha hd) (RefsAll_refsAdd hf (hs u hum) hx) h
+    · exact ih ha hf h
 
 /-! ### records after the gauge loop -/
 
@@ -249,8 +256,7 @@ structure SInv (s : State) : Prop where
   kfin : RefsAll (fun t i => (i, t) ∈ idStart s.gauges) s.finished
   up : ∀ g ∈ s.gauges, g.id ∈ refsIds s.upcoming → g.filled = 0 ∧ g.distributed = []
   act : ∀ g ∈ s.gauges, g.id ∈ refsIds s.active → g.perpetual = true ∨ g.filled < g.numEpochs
-  fin : ∀ g ∈ s.gauges, g.id ∈ refsIds s.finished →
-          g.perpetual = false ∧ g.numEpochs ≤ g.filled + 1 ∧ g.filled ≤ g.numEpochs
+  fin : ∀ g ∈ s.gauges, g.id ∈ refsIds s.finished → g.perpetual = false ∧ g.filled = g.numEpochs
   pos : ∀ g ∈ s.gauges, g.perpetual = true ∨ 1 ≤ g.numEpochs
 
 theorem SInv_init (cfg : Cfg) (balance : Coins) : SInv (init cfg balance) :=
@@ -362,28 +368,43 @@ theorem SInv_add {s s' : State} {id : Nat} {c : Coins} {now : Int} (hi : Inv s) 
       have := hs.pos y hy
       rw [← e4, ← e5]; exact this
 
-theorem finishing_iff (g : Gauge) : finishing g = true ↔ g.perpetual = false ∧ g.numEpochs ≤ g.filled + 1 := by
+theorem finishing_iff (store : List Gauge) (g : Gauge) : finishing store g = true ↔
+    g.perpetual = false ∧ g.numEpochs ≤ g.filled + 1 ∧ ∃ u, getGauge store g.id = some u ∧ u.numEpochs ≤ u.filled := by
   unfold finishing
-  simp only [Bool.and_eq_true, Bool.not_eq_true', decide_eq_true_eq]
+  cases hu : getGauge store g.id with
+  | none => simp
+  | some u => simp [and_assoc]
 
-theorem mem_finishing_ids {snap : List Gauge} {i : Nat} :
-    i ∈ (snap.filter finishing).map (·.id) ↔ ∃ g ∈ snap, finishing g = true ∧ g.id = i := by
+theorem mem_finishing_ids {store snap : List Gauge} {i : Nat} :
+    i ∈ (snap.filter (finishing store)).map (·.id) ↔ ∃ g ∈ snap, finishing store g = true ∧ g.id = i := by
   simp only [List.mem_map, List.mem_filter]
   constructor
   · rintro ⟨g, ⟨h1, h2⟩, h3⟩; exact ⟨g, h1, h2, h3⟩
   · rintro ⟨g, h1, h2, h3⟩; exact ⟨g, ⟨h1, h2⟩, h3⟩
 
+/-- the record stored under an id that occurs once. -/
+theorem getGauge_of_mem {gs : List Gauge} (hn : (gs.map (·.id)).Nodup) {x : Gauge} (hx : x ∈ gs) :
+    getGauge gs x.id = some x := by
+  cases h : getGauge gs x.id with
+  | none =>
+    unfold getGauge at h
+    have := List.find?_eq_none.mp h x hx
+    simp at this
+  | some y =>
+    obtain ⟨hy, hid⟩ := getGauge_some h
+    rw [eq_of_id_eq hn hy hx hid]
+
 /-- the membership facts of one successful epoch, collected once. -/
-structure EpochFacts (s : State) (now : Int) (up act act' fin : Refs) (snap : List Gauge) : Prop where
+structure EpochFacts (s : State) (now : Int) (up act act' fin : Refs) (snap store : List Gauge) : Prop where
   upEq : up = s.upcoming.filter (fun kv => decide (now < kv.1))
   upSub : ∀ i ∈ refsIds up, i ∈ refsIds s.upcoming
   actFrom : ∀ i ∈ refsIds act, i ∈ refsIds s.upcoming ∨ i ∈ refsIds s.active
   actNotUp : ∀ i ∈ refsIds act, i ∉ refsIds up
   actNotFin : ∀ i ∈ refsIds act, i ∉ refsIds s.finished
   act'Sub : ∀ i ∈ refsIds act', i ∈ refsIds act
-  act'NotF : ∀ i ∈ refsIds act', i ∉ (snap.filter finishing).map (·.id)
-  actSplit : ∀ i ∈ refsIds act, i ∈ (snap.filter finishing).map (·.id) ∨ i ∈ refsIds act'
-  finIff : ∀ i, i ∈ refsIds fin ↔ i ∈ (snap.filter finishing).map (·.id) ∨ i ∈ refsIds s.finished
+  act'NotF : ∀ i ∈ refsIds act', i ∉ (snap.filter (finishing store)).map (·.id)
+  actSplit : ∀ i ∈ refsIds act, i ∈ (snap.filter (finishing store)).map (·.id) ∨ i ∈ refsIds act'
+  finIff : ∀ i, i ∈ refsIds fin ↔ i ∈ (snap.filter (finishing store)).map (·.id) ∨ i ∈ refsIds s.finished
   snapIds : snap.map (·.id) = refsIds act
   snapMem : ∀ g ∈ snap, g ∈ s.gauges
   snapNodup : (snap.map (·.id)).Nodup
@@ -421,9 +442,9 @@ theorem activate_keeps {now : Int} {up act up' act' : Refs} (h : activate now up
         cases h
         exact ih hx
 
-theorem epochFacts {s : State} {now : Int} {up act act' fin : Refs} {snap : List Gauge} (hi : Inv s)
+theorem epochFacts {s : State} {now : Int} {up act act' fin : Refs} {snap store : List Gauge} (hi : Inv s)
     (h1 : activate now s.upcoming s.active = some (up, act)) (h2 : snapshot s.gauges (refsIds act) = some snap)
-    (h5 : finishLoop snap act s.finished = some (act', fin)) : EpochFacts s now up act act' fin snap := by
+    (h5 : finishLoop store snap act s.finished = some (act', fin)) : EpochFacts s now up act act' fin snap store := by
   have p1 := activate_perm h1
   obtain ⟨p2, p3⟩ := finishLoop_perm h5
   have hmid : (refsIds up ++ refsIds act ++ refsIds s.finished).Nodup :=
@@ -433,7 +454,7 @@ theorem epochFacts {s : State} {now : Int} {up act act' fin : Refs} {snap : List
   have hactn : (refsIds act).Nodup := by
     rw [List.append_assoc, List.nodup_append] at hmid
     exact (List.nodup_append.mp hmid.2.1).1
-  have hFA : ((snap.filter finishing).map (·.id) ++ refsIds act').Nodup := p2.nodup hactn
+  have hFA : ((snap.filter (finishing store)).map (·.id) ++ refsIds act').Nodup := p2.nodup hactn
   refine ⟨hue, ?_, ?_, ?_, ?_, ?_, ?_, ?_, ?_, hsid, hsm, by rw [hsid]; exact hactn, activate_keeps h1⟩
   · intro i hh; rw [hue] at hh; exact filter_refsIds_sub hh
   · intro i hh
@@ -461,7 +482,13 @@ theorem SInv_epoch {s s' : State} {now : Int} {thr : Quotes} {locks : List Lock}
   have kup0 : RefsAll (fun t i => (i, t) ∈ idStart s.gauges) up := (RefsAll_activate hs.kup hs.kact h1).1
   have ksnap : ∀ g ∈ snap, (g.id, g.start) ∈ idStart s.gauges := fun g hg =>
     List.mem_map.mpr ⟨g, F.snapMem g hg, rfl⟩
-  obtain ⟨kact1, kfin1⟩ := RefsAll_finishLoop kact0 hs.kfin ksnap h5
+  have kstore : ∀ u ∈ store, (u.id, u.start) ∈ idStart s.gauges := fun u hu => by
+    rw [← hst]; exact List.mem_map.mpr ⟨u, hu, rfl⟩
+  obtain ⟨kact1, kfin1⟩ := RefsAll_finishLoop kact0 hs.kfin kstore h5
+  have hstoreids : (store.map (·.id)).Nodup := by
+    have e : ∀ l : List Gauge, l.map (·.id) = (idStart l).map (·.1) := fun l => by
+      unfold idStart; rw [List.map_map]; rfl
+    rw [e, hst, ← e]; exact hi.ids
   -- state of a snapshot gauge before the epoch
   have hsnapstate : ∀ g ∈ snap, g.perpetual = true ∨ g.filled < g.numEpochs := by
     intro g hg
@@ -488,30 +515,46 @@ theorem SInv_epoch {s s' : State} {now : Int} {thr : Quotes} {locks : List Lock}
         · exact Or.inl hp
         · right; omega
       · exact hs.act x hold ha
-    · have hnf : ¬ finishing g = true := fun hf =>
+    · have hxs : g.postDistribute total ∈ store := hx
+      have hnf : ¬ finishing store g = true := fun hf =>
         F.act'NotF _ hxa (mem_finishing_ids.mpr ⟨g, hg, hf, rfl⟩)
       rw [finishing_iff] at hnf
+      have hre : getGauge store g.id = some (g.postDistribute total) := getGauge_of_mem hstoreids hxs
       show g.perpetual = true ∨ g.filled + 1 < g.numEpochs
       cases hp : g.perpetual with
       | true => exact Or.inl rfl
-      | false => right; exact Nat.lt_of_not_le (fun hle => hnf ⟨hp, hle⟩)
+      | false =>
+        right
+        apply Nat.lt_of_not_le
+        intro hle
+        exact hnf ⟨hp, hle, _, hre, hle⟩
   · -- finished
     intro x hx hxf
     rcases (F.finIff _).mp hxf with hF | hold
     · obtain ⟨g, hg, hfin, hgid⟩ := mem_finishing_ids.mp hF
-      obtain ⟨hnp, hle⟩ := (finishing_iff g).mp hfin
+      obtain ⟨hnp, hle, u, hu, hule⟩ := (finishing_iff store g).mp hfin
       have hlt : g.filled < g.numEpochs := by
         rcases hsnapstate g hg with hp | hp
         · rw [hnp] at hp; cases hp
         · exact hp
-      rcases hrec x hx with hxold | ⟨g2, hg2, _, total, pays, _, rfl⟩
-      · have : x = g := eq_of_id_eq hi.ids hxold (F.snapMem g hg) hgid.symm
+      have hxu : u = x := by
+        have hxs : x ∈ store := hx
+        have := getGauge_of_mem hstoreids hxs
+        rw [← hgid, hu] at this
+        exact Option.some.inj this
+      subst hxu
+      rcases hrec u hx with hxold | ⟨g2, hg2, _, total, pays, _, hue⟩
+      · have : u = g := eq_of_id_eq hi.ids hxold (F.snapMem g hg) hgid.symm
         subst this
-        exact ⟨hnp, hle, Nat.le_of_lt hlt⟩
-      · have : g2 = g := eq_of_id_eq hi.ids (F.snapMem g2 hg2) (F.snapMem g hg) hgid.symm
+        omega
+      · have : g2 = g := by
+          refine eq_of_id_eq hi.ids (F.snapMem g2 hg2) (F.snapMem g hg) ?_
+          have e1 : u.id = g2.id := by rw [hue]; rfl
+          exact e1.symm.trans hgid.symm
         subst this
-        show g2.perpetual = false ∧ g2.numEpochs ≤ g2.filled + 1 + 1 ∧ g2.filled + 1 ≤ g2.numEpochs
-        exact ⟨hnp, by omega, by omega⟩
+        subst hue
+        show g2.perpetual = false ∧ g2.filled + 1 = g2.numEpochs
+        exact ⟨hnp, by omega⟩
     · rcases hrec x hx with hxold | ⟨g, hg, _, total, pays, _, rfl⟩
       · exact hs.fin x hxold hold
       · exact absurd hold (F.actNotFin _ (hsnapid g hg))
